@@ -337,6 +337,7 @@ def _run(h):
     big_partial(h)
     usage255_after_unlock(h)
     foreign_signatures(h)
+    unknown_versions(h)
 
 
 def _split_subpackets(area):
@@ -402,6 +403,20 @@ def foreign_signatures(h):
             o2 = outcome(lambda: h.parse(b1 + TRAIL))
             if o2[0] != 'ok' or o2[1][1] != TRAIL or bytes(o2[1][0].__bytearray__()) != b1:
                 ctx.fail('foreign-signature', 'normalised signature is not a fixed point of parse/serialise', dict(case, out=b1.hex()[:600]))
+
+
+def unknown_versions(h):
+    """packets of a versioned tag whose version octet PGPy has no class for (0 included): kept opaque, exactly their own length
+    consumed, re-emitted identically, following packets untouched"""
+    ctx, rng = h.ctx, h.ctx.rng
+    known = {1: {3}, 2: {4}, 3: {4}, 4: {3}, 5: {4}, 6: {4}, 7: {4}, 14: {4}, 18: {1}}
+    for tag, kv in sorted(known.items()):
+        for ver in ([0, 1, 2, 3, 5, 6, 255] if ctx.quick else range(256)):
+            if ver in kv:
+                continue
+            body = bytes([ver]) + bytes(rng.randrange(256) for _ in range(rng.choice([0, 1, 12, 25, 200])))
+            for framing, data in framings(rng, tag, body, True)[:2 if ctx.quick else 4]:
+                h.foreign('unknown-version', tag, body, 'tag %d version %d' % (tag, ver), framing, data)
 
 
 def grow_after_parse(h):
